@@ -167,7 +167,23 @@ CHECK_DEADLOCK FALSE
         ctx.violation(f"pretty value of {setting} disagrees with StructuredR", {"op": "structured_setting", "setting": setting, "failed": failed}, detail)
 
     def get(index, data, name, extra=()):
-        return core.guarded(lambda: cfg_with(beacon, index, data, extra).settings[name], seconds=10)
+        o = core.guarded(lambda: cfg_with(beacon, index, data, extra).settings[name], seconds=10)
+        if o[0] == "ok" and isinstance(o[1], list):
+            # a decoded value belongs to the configuration it came from: what a caller does to it must not show up in the
+            # decoding of another configuration with the same bytes
+            import copy
+
+            keep = copy.deepcopy(o[1])
+            try:
+                o[1].reverse()
+                o[1].append(("mutated-by-caller", True))
+            except Exception:  # noqa: BLE001
+                pass
+            again = core.guarded(lambda: cfg_with(beacon, index, data, extra).settings[name], seconds=10)
+            if again != ("ok", keep):
+                viol(name, "shared_between_configurations", {"got": str(again)[:200], "expected": str(keep)[:200]})
+            return ("ok", keep)
+        return o
 
     for row in tab["prog"]:
         for idx, name, b0 in ((12, "SETTING_C2_REQUEST", "metadata"), (13, "SETTING_C2_POSTREQ", "id")):
@@ -298,6 +314,18 @@ CHECK_DEADLOCK FALSE
             if [x for x in o[1]] != groups + [x for x in o[1] if x not in groups]:
                 rest = [0]  # groups must come first
         ev.append({"op": "gate", "flags": flags, "r": "ok" if o[0] == "ok" else str(o[1]), "groups": groups, "rest": rest})
+    # settings whose value is longer than 32767 bytes (the length field is an unsigned 16-bit number) followed by further settings
+    for big in ([40000] if q else [32767, 32768, 40000, 65000]):
+        arg = rng.randbytes(big)
+        prog = tlv.transform_program([("BUILD", 0), ("APPEND", arg), ("BASE64", None), ("HEADER", b"Cookie")], size=None)
+        rec_raw = tlv.recover_program([("print", None), ("base64", None)], size=None)
+        o = core.guarded(lambda: (lambda c: (c.settings["SETTING_C2_REQUEST"], c.settings["SETTING_C2_RECOVER"], c.port, c.settings["SETTING_SPAWNTO_X86"]))(
+            beacon.BeaconConfig(tlv.block([tlv.short(1, 0), tlv.setting(12, 3, prog), tlv.setting(11, 3, rec_raw), tlv.short(2, 4444), tlv.ptr(29, b"%windir%\\x", 64)], patch_size=0) + b"\x00\x00")), seconds=20)
+        ctx.evaluations += 1
+        want = ([("BUILD", "metadata"), ("APPEND", arg), ("BASE64", True), ("HEADER", b"Cookie")], [("print", True), ("base64", True)], 4444, "%windir%\\x")
+        if o != ("ok", want):
+            viol("SETTING_C2_REQUEST", "value_longer_than_32767", {"arg_len": big, "got": str(o)[:300]})
+        ctx.count_distinct(("bigsetting", big))
     # every scalar pretty-printer of the frozen table StructuredR.ScalarKind (text, hex, NUL-terminated bytes) and the BOF allocator
     SCALAR = [8, 9, 10, 15, 26, 27, 29, 30, 54, 60, 61, 62, 63, 64, 65, 66, 14, 53, 74, 36]
     for idx in SCALAR:
